@@ -64,7 +64,7 @@ def showState (s : PState) : String :=
   match s.info with
   | none => "last=-"
   | some d =>
-    let blocks := if s.ext.isAvailable then showIter s.ext.blocks else "na"
+    let blocks := showIter s.ext.blocks
     let dbg := if s.ext.debugFails then "panic" else "ok"
     s!"flags={d.flags.toNat} ident={d.ident.toNat} master={showOptU8 d.master} ext={showRaw s.ext.raw} blocks={blocks} dbg={dbg}"
 
@@ -151,7 +151,7 @@ structure OState where
 /-- State of a fresh peripheral as the property demands it. -/
 def expectedInit (cap : Nat) (dx : Bool) : String :=
   if !dx then "last=-"
-  else s!"flags=0 ident=0 master=- ext={if cap = 0 then "none" else "-"} blocks={if cap = 0 then "na" else "-"} dbg=ok"
+  else s!"flags=0 ident=0 master=- ext={if cap = 0 then "none" else "-"} blocks=- dbg=ok"
 
 def field (key : String) (w : String) : Option String :=
   if w.startsWith (key ++ "=") then some ((w.drop (key.length + 1)).toString) else none
@@ -195,7 +195,7 @@ def checkReply (cap : Nat) (prev : String) (t : Telegram) (obs : String) :
           else ext = prevExt ∨ ext = "-"
         let wantE := if cap = 0 then "none" else if Spec.stores cap pdu then bytesToHex (pdu.drop 6) else prevExt
         let wantB :=
-          if ext = "none" then "na" else
+          if ext = "none" then "-" else
           match hexToBytes ext with
           | some bs => showBlocksWith Spec.ones (Spec.parse bs)
           | none => "?"
@@ -239,7 +239,9 @@ def oracleC17 (st : OState) (op obs : String) : OState × Option (String × Stri
       | [verdict, it] =>
         if (verdict = "accepted") ≠ acc then (st, some ("C17", "diag_rejects: wrong verdict"))
         else if it = "iter=panic" then
-          (st, some ("K_C17_nobuf", "iter_diag_blocks().next() panics when no diagnostics buffer is attached"))
+          (st, some ("C17", "blocks_total: iter_diag_blocks().next() panics when no diagnostics buffer is attached"))
+        else if it = "iter=some" then
+          (st, some ("C17", "blocks_total: a block was yielded although no diagnostics buffer is attached"))
         else (st, none)
       | _ => (st, some ("C17", s!"unexpected observation `{obs}`"))
     | none => (st, none)
